@@ -308,7 +308,6 @@ pub proof fn lemma_first_seq_step(fs: Seq<Set<SymbolIndex>>, syms: Seq<SymbolInd
 // ---- C01: first_sets (the FIRST table itself): soundness of the fixpoint -----------------------------------------------
 //@allow assume_specification BTreeSet::extend adds exactly the items of its argument (std dependency)
 //@allow axiom fn into_items of a BTreeSet (the argument type of the one extend call) is its view
-//@allow exec_allows_no_decreases_clause first_sets' `while additions` loop: termination is NOT proved (it needs a measure over all set sizes)
 pub uninterp spec fn into_items<I, T>(iter: I) -> Set<T>;
 pub assume_specification<T: Ord, A: Allocator + Clone, I: IntoIterator<Item = T>> [ <BTreeSet<T, A> as Extend<T>>::extend::<I> ] (s: &mut BTreeSet<T, A>, iter: I)
     ensures vstd::std_specs::btree::key_obeys_cmp_spec::<T>() ==> final(s)@ == old(s)@.union(into_items::<I, T>(iter));
@@ -471,7 +470,73 @@ pub proof fn lemma_closed_contains_kleene(g: &Grammar, fs: Seq<Set<SymbolIndex>>
     }
 }
 
-//@fn TBL first_sets ret=r foreach attr=verifier::loop_isolation(false) attr=verifier::exec_allows_no_decreases_clause
+// ---- termination of the fixpoint loop of first_sets: the table only grows, and it is bounded ---------------------------
+/// total number of entries of the table
+pub open spec fn total(fs: Seq<Set<SymbolIndex>>) -> nat
+    decreases fs.len(),
+{
+    if fs.len() == 0 { 0 } else { total(fs.drop_last()) + fs.last().len() }
+}
+/// every entry is a symbol of the grammar and every set is finite
+pub open spec fn bounded(fs: Seq<Set<SymbolIndex>>, n: int) -> bool {
+    forall|x: int| 0 <= x < fs.len() ==> (#[trigger] fs[x]).finite() && forall|a: SymbolIndex| fs[x].contains(a) ==> (a.0 as int) < n
+}
+pub proof fn lemma_total_update(fs: Seq<Set<SymbolIndex>>, i: int, s: Set<SymbolIndex>)
+    requires 0 <= i < fs.len(),
+    ensures total(fs.update(i, s)) == total(fs) - fs[i].len() + s.len(),
+    decreases fs.len(),
+{
+    if i == fs.len() - 1 {
+        assert(fs.update(i, s).drop_last() =~= fs.drop_last());
+    } else {
+        lemma_total_update(fs.drop_last(), i, s);
+        assert(fs.update(i, s).drop_last() =~= fs.drop_last().update(i, s));
+    }
+}
+/// a finite set of symbols below n has at most n elements
+pub proof fn lemma_set_bound(s: Set<SymbolIndex>, n: int)
+    requires s.finite(), n >= 0, forall|a: SymbolIndex| s.contains(a) ==> (a.0 as int) < n,
+    ensures s.len() <= n,
+    decreases n,
+{
+    if n == 0 {
+        assert(s =~= Set::empty());
+    } else {
+        let top = SymbolIndex((n - 1) as usize);
+        let rest = s.remove(top);
+        assert forall|a: SymbolIndex| rest.contains(a) implies (a.0 as int) < n - 1 by { if a.0 as int == n - 1 { assert(a == top); } }
+        lemma_set_bound(rest, n - 1);
+        if s.contains(top) { assert(s.len() == rest.len() + 1); } else { assert(rest =~= s); }
+    }
+}
+pub proof fn lemma_total_bound(fs: Seq<Set<SymbolIndex>>, n: int)
+    requires bounded(fs, n), n >= 0,
+    ensures total(fs) <= fs.len() * n,
+    decreases fs.len(),
+{
+    if fs.len() > 0 {
+        assert(bounded(fs.drop_last(), n)) by { assert forall|x: int| 0 <= x < fs.drop_last().len() implies (#[trigger] fs.drop_last()[x]).finite() && forall|a: SymbolIndex| fs.drop_last()[x].contains(a) ==> (a.0 as int) < n by { assert(fs.drop_last()[x] == fs[x]); } }
+        lemma_total_bound(fs.drop_last(), n);
+        lemma_set_bound(fs.last(), n);
+        assert(fs.len() * n == (fs.len() - 1) * n + n) by (nonlinear_arith);
+    }
+}
+
+pub proof fn lemma_first_seq_bounded(fs: Seq<Set<SymbolIndex>>, syms: Seq<SymbolIndex>, e: SymbolIndex, n: int)
+    requires bounded(fs, n), (e.0 as int) < n, forall|i: int| 0 <= i < syms.len() ==> ((#[trigger] syms[i]).0 as int) < fs.len(),
+    ensures first_seq(fs, syms, e).finite(), forall|a: SymbolIndex| first_seq(fs, syms, e).contains(a) ==> (a.0 as int) < n,
+    decreases syms.len(),
+{
+    if syms.len() > 0 {
+        assert((syms[0].0 as int) < fs.len());
+        let x = fs[syms[0].0 as int];
+        assert(x.finite());
+        assert forall|i: int| 0 <= i < syms.drop_first().len() implies ((#[trigger] syms.drop_first()[i]).0 as int) < fs.len() by { assert(syms.drop_first()[i] == syms[i + 1]); }
+        lemma_first_seq_bounded(fs, syms.drop_first(), e, n);
+    }
+}
+
+//@fn TBL first_sets ret=r foreach attr=verifier::loop_isolation(false)
 //@  |     requires grammar_wf(grammar),
 //@  |     ensures
 //@  |         first_table_ok(grammar, fs_view(&r)), // [C01]
@@ -508,6 +573,14 @@ pub proof fn lemma_closed_contains_kleene(g: &Grammar, fs: Seq<Set<SymbolIndex>>
 //@  |     // the number of applications of the FIRST equations that justify the table so far
 //@  |     let ghost mut kn: nat = 0;
 //@  |     proof {
+//@  |         assert(bounded(fs_view(&first_sets), nsym(grammar))) by {
+//@  |             assert forall|x: int| 0 <= x < fs_view(&first_sets).len() implies (#[trigger] fs_view(&first_sets)[x]).finite()
+//@  |                 && forall|a: SymbolIndex| fs_view(&first_sets)[x].contains(a) ==> (a.0 as int) < nsym(grammar) by {
+//@  |                 if x < nterm(grammar) { assert(v2[x] =~= Set::empty().insert(SymbolIndex(x as usize))); }
+//@  |                 else { assert(v2[x] =~= Set::empty()); }
+//@  |             }
+//@  |         }
+//@  |         lemma_total_bound(fs_view(&first_sets), nsym(grammar));
 //@  |         assert forall|x: int, a: SymbolIndex| 0 <= x < fs_view(&first_sets).len() && (#[trigger] fs_view(&first_sets)[x].contains(a)) implies kleene(grammar, 0, x, a) by {
 //@  |             if x < nterm(grammar) { assert(v2[x] =~= Set::empty().insert(SymbolIndex(x as usize))); }
 //@  |             else if x != grammar.empty_index.0 { assert(v2[x] =~= Set::empty()); }
@@ -517,8 +590,12 @@ pub proof fn lemma_closed_contains_kleene(g: &Grammar, fs: Seq<Set<SymbolIndex>>
 //@  loop 2
 //@  |         invariant
 //@  |             sound_upto(grammar, fs_view(&first_sets), kn),
+//@  |             bounded(fs_view(&first_sets), nsym(grammar)),
+//@  |             total(fs_view(&first_sets)) <= nsym(grammar) * nsym(grammar),
 //@  |             first_table_ok(grammar, fs_view(&first_sets)),
 //@  |             !additions ==> closed_upto(grammar, fs_view(&first_sets), grammar.productions.0@.len() as int),
+//@  |         // the table grows whenever the loop goes round again, and it is bounded; the last round changes only the flag
+//@  |         decreases nsym(grammar) * nsym(grammar) - total(fs_view(&first_sets)), (if additions { 1int } else { 0int }),
 //@  after 1 "additions = false;"
 //@  |         let ghost fs0 = fs_view(&first_sets);
 //@  loop 3 iter=it3
@@ -527,6 +604,10 @@ pub proof fn lemma_closed_contains_kleene(g: &Grammar, fs: Seq<Set<SymbolIndex>>
 //@  |                 forall|i: int| 0 <= i < it3.seq().len() ==> *it3.seq()[i] == grammar.productions.0@[i],
 //@  |                 first_table_ok(grammar, fs_view(&first_sets)),
 //@  |                 sound_upto(grammar, fs_view(&first_sets), kn),
+//@  |                 bounded(fs_view(&first_sets), nsym(grammar)),
+//@  |                 total(fs_view(&first_sets)) <= nsym(grammar) * nsym(grammar),
+//@  |                 total(fs_view(&first_sets)) >= total(fs0),
+//@  |                 additions ==> total(fs_view(&first_sets)) > total(fs0),
 //@  |                 !additions ==> fs_view(&first_sets) == fs0 && closed_upto(grammar, fs0, it3.index() as int),
 //@  after 1 "let lhs_len = first_sets[lhs_nonterm].len();"
 //@  |             let ghost before = fs_view(&first_sets);
@@ -546,6 +627,14 @@ pub proof fn lemma_closed_contains_kleene(g: &Grammar, fs: Seq<Set<SymbolIndex>>
 //@  |                     assert(fs_view(&first_sets) =~= before);
 //@  |                 }
 //@  |                 lemma_sound_step(grammar, before, kn, pidx);
+//@  |                 // the table only grows, inside the symbols of the grammar
+//@  |                 lemma_first_seq_bounded(before, rhs_syms(production), grammar.empty_index, nsym(grammar));
+//@  |                 let li = lhs_nonterm.0 as int;
+//@  |                 let grown = before[li].union(add);
+//@  |                 assert(grown.finite());
+//@  |                 lemma_total_update(before, li, grown);
+//@  |                 assert(bounded(fs_view(&first_sets), nsym(grammar)));
+//@  |                 lemma_total_bound(fs_view(&first_sets), nsym(grammar));
 //@  |             }
 //@  |             proof { kn = kn + 1; }
 //@end
